@@ -58,9 +58,30 @@ def generate(rng, n):
     return cases
 
 
+_LINKDIR = []
+
+
+def _with_link(s):
+    """the working directory holds a symbolic link named like the string (pointing at a differently named package)"""
+    import os
+    import tempfile
+    if not _LINKDIR:
+        from suites.common import VERIF
+        d = tempfile.mkdtemp(prefix="nvra-", dir=os.path.join(VERIF, ".work"))
+        _LINKDIR.append(d)
+        os.chdir(d)
+    if s and "/" not in s and "\x00" not in s and len(s) < 200 and not os.path.lexists(s):
+        try:
+            os.symlink("other-9:9.9-9.noarch.rpm", s)
+        except OSError:
+            pass
+
+
 def impl(case):
     import productmd.common
     try:
+        if len(case["s"]) % 3 == 0:
+            _with_link(case["s"])
         first = productmd.common.parse_nvra(case["s"])
         snapshot = dict(first)
         first["name"], first["arch"] = "changed-by-the-caller", "src"      # the caller owns what it was given
